@@ -11,7 +11,7 @@ import ast
 import os
 from fractions import Fraction
 
-from ..translate import parse, find_func, func_defaults, module_consts, rat, lstr
+from ..translate import parse, find_func, func_defaults, module_consts, rat, lstr, expand
 
 NAME = "BinsConsts"
 
@@ -59,11 +59,19 @@ def extract(repo, o):
     o.defn("ANTI_PAD_FACTOR", "Int", str(int(k)), "cnvlib/antitarget.py get_antitargets: pad_size = <this> * INSERT_SIZE")
     o.defn("ANTI_PAD", "Int", f"({int(k)} * {int(penv['INSERT_SIZE'])} : Int)",
            "the margin pad_size = ANTI_PAD_FACTOR * params.INSERT_SIZE")
-    tel = _assign_in(ga, "TELOMERE_SIZE")
+    # the telomere allowance: the second argument of guess_chromosome_regions(targets, <it>) -- a local, a
+    # module-level constant or a constant of params.py
+    gcr = [n for n in ast.walk(ga) if isinstance(n, ast.Call) and getattr(n.func, "id", None) == "guess_chromosome_regions"
+           and len(n.args) == 2]
+    if len(gcr) != 1:
+        raise ValueError("get_antitargets: guess_chromosome_regions(targets, <telomere size>) not found")
+    tel = expand(gcr[0].args[1], ga, tree)
+    if isinstance(tel, ast.Name) and isinstance(penv.get(tel.id), int):
+        tel = ast.Constant(value=penv[tel.id])
     if not (isinstance(tel, ast.Constant) and isinstance(tel.value, int)):
         raise ValueError("TELOMERE_SIZE is not an integer literal")
     o.defn("TELOMERE_SIZE", "Int", str(tel.value), "get_antitargets: TELOMERE_SIZE (guessed chromosome extents start here)")
-    chain = _assign_in(ga, "bg_arr")
+    chain = expand(_assign_in(ga, "bg_arr"), ga, tree, keep=("pad_size",))   # also when written as named steps
     want = "accessible.resize_ranges({a}pad_size).subtract(targets.resize_ranges({t}pad_size)).subdivide(avg_bin_size, min_bin_size)"
     signs = {}
     for n in ast.walk(chain):
@@ -85,7 +93,7 @@ def extract(repo, o):
     o.defn("ANTI_DEFAULT_AVG", "Int", str(int(d["avg_bin_size"])), "do_antitarget default avg_bin_size")
     if d.get("min_bin_size", 0) is not None:
         raise ValueError("do_antitarget: min_bin_size default is no longer None")
-    mexpr = _assign_in(da, "min_bin_size")
+    mexpr = expand(_assign_in(da, "min_bin_size"), da, tree)   # also when moved into a one-line helper
     # 2 * int(avg_bin_size * 2 ** MIN_REF_COVERAGE)
     ok = (isinstance(mexpr, ast.BinOp) and isinstance(mexpr.op, ast.Mult)
           and isinstance(mexpr.left, ast.Constant) and isinstance(mexpr.left.value, int)
